@@ -116,7 +116,9 @@ func Errorf(format string, a ...interface{}) *Error {
 	var args []interface{}
 	for _, arg := range a {
 		if obj, ok := arg.(Object); ok {
-			args = append(args, obj.Interface())
+			// The text of a script object, as print shows it: the Go value
+			// behind a channel, a function or a proxy prints as an address
+			args = append(args, PrintableValue(obj))
 		} else {
 			args = append(args, arg)
 		}
